@@ -603,6 +603,13 @@ func c10Resolve(root c10Obj, parts []string, create bool, regexKeys bool, firstO
 					if !create {
 						continue
 					}
+					if regexKeys {
+						// the entry PathMatcher would append is found again only if the value matches itself;
+						// otherwise creating it is an error (since the repair of the create-and-retry loop)
+						if re, err := regexp.Compile(kv[1]); err != nil || !re.MatchString(kv[1]) {
+							return nil, false, false
+						}
+					}
 					l = append(l, map[string]interface{}{kv[0]: kv[1]})
 					s.set(l)
 					next = append(next, c10Slot{l: l, idx: len(l) - 1})
@@ -1107,13 +1114,10 @@ func (t c10Tree) classify(cls string, out string) string {
 	case ClsPanic:
 		return "C10/build-panics"
 	case ClsDiverge:
-		if c10ExpectHang(c10Case{Kind: "repl", Repls: t.Repls}) {
-			return "C10/replacement-create-nonselfmatching-selector-hangs"
-		}
 		return "C10/build-does-not-return"
 	}
 	undecided := false
-	modes := []c10Mode{{ImgTwice: true}, {ListKeyRegex: true}, {SourceAlias: true}, {ListKeyRegex: true, SourceAlias: true}}
+	modes := []c10Mode{{ImgTwice: true}, {ListKeyRegex: true}} // the emulation of the repaired live source is gone: a reappearance is unlisted
 	for _, m := range modes {
 		if m.ImgTwice && len(t.Images) == 0 {
 			continue
